@@ -82,6 +82,13 @@ def _iroot(x, k):
 
 def band_reps(A, form, debug):
     out = []
+    # powers of +-2 at the representability edge: (-2)^(BITS-1) = MIN exactly, 2^(BITS-1) and (+-2)^BITS do not fit (signed)
+    for bn, b in (("2", 2), ("n2", -2)):
+        if b < 0 and not is_signed(A):
+            continue
+        for en, ef in (("Bm2", lambda W: W.bits(A) - 2), ("Bm1", lambda W: W.bits(A) - 1), ("B", lambda W: W.bits(A))):
+            out.append(("edge_%s_%s" % (bn, en), (lambda b=b, ef=ef: lambda W: {0: W.wrap(A, b), 1: PI("u32", ef(W))})(),
+                        arith.form_expect(form, A, lambda W, a, e: pw(a, e), "overflow(pow)", debug)))
     for k in (3, 5, 2, 4):
         for sign in ((-1, 1) if is_signed(A) else (1,)):
             for which in ("top", "mid"):
